@@ -1,6 +1,7 @@
 package main
 
 import (
+	"os"
 	"fmt"
 	"strings"
 
@@ -93,6 +94,10 @@ func debugMeta(p *Program, spec string, forks int) {
 	e := NewEngine(p)
 	e.EvalInits = true
 	e.MaxForks = forks
+	e.PruneByFacts = os.Getenv("PRISMCHECK_PRUNE") != ""
+	if os.Getenv("PRISMCHECK_ITER") != "" {
+		fmt.Sscan(os.Getenv("PRISMCHECK_ITER"), &e.MaxIter)
+	}
 	e.SeqCalls = func(n string) bool { return strings.Contains(n, "ReadSegment") }
 	st := newState()
 	s := &Stream{Name: "in"}
@@ -112,6 +117,9 @@ func debugMeta(p *Program, spec string, forks int) {
 			fmt.Println("STUCK", o.Why, p.Pos(o.Pos))
 		}
 		if !okRet {
+			if os.Getenv("PRISMCHECK_ALLOUT") != "" {
+				fmt.Printf("... %s at %s ret=%s why=%s\n", o.Kind, p.Pos(o.Pos), trunc(valKey(o.Ret), 160), o.Why)
+			}
 			continue
 		}
 		fmt.Printf("--- success at %s pos=%s conds=%d\n", p.Pos(o.Pos), o.St.pos[s].Key(), len(o.St.conds))
